@@ -23,6 +23,8 @@ def pinned : Tables :=
     unaryParse := pinnedParse500
     initParse := pinnedParse500
     exchangeParse := pinnedExchangeParse
+    readWrapsBatchValidation := false
+    readWrapsKwargs := false
     sizeCap := ⟨413, .falcon⟩
     encBomb := ⟨413, .falcon⟩
     encCorrupt := ⟨400, .falcon⟩
